@@ -12,7 +12,7 @@ META = {
     "rule": (
         "CNF formulas from four families (small n<=8 with sparse numbering, clause length 0-5, duplicates, tautologies; "
         "near-threshold 3-SAT n=10-40 with units/binaries mixed in; structured pigeonhole/parity; 'deep' 10-13 variable "
-        "enumerations that push >2000 blocking clauses through reduce_db) x assumption lists (0-3 literals, may repeat, "
+        "enumerations that push >2000 blocking clauses through reduce_db, plus a deterministic 'deep_default' list with all tuning parameters at their defaults so the database is reduced twice) x assumption lists (0-3 literals, may repeat, "
         "contradict, or name an absent variable) x solution_limit, luby_factor, max_restarts, max_conflicts. Oracle = "
         "validity predicate: every returned assignment (solution and each of solutions) makes every clause true under "
         "every completion, agrees with every assumption, solutions pairwise distinct, solution among solutions. "
